@@ -101,6 +101,45 @@ def structure_ops(E, order):
     E.eq(O.den(M3), ref3, "duplicates summed by the copying sptenmat constructor")
 
 
+def _sparse_or_dense(E, got, ref, label):
+    if isinstance(got, ttb.sptensor):
+        O.wellformed(E, got, label)
+    E.eq(O.den(got) if isinstance(got, (ttb.sptensor, ttb.tensor)) else got, ref, label)
+
+
+@ob("C06", params=[dict(shape=sh, order=o, op=op, big=b) for sh in ((4, 2), (4, 1, 2)) for o in itertools.permutations(range(3))
+                   for op in ("ttv", "ttm", "collapse", "scale") for b in (False, True)], max_paths=3000,
+    bounds="sptensor with 3 stored symbolic values (two in one fibre of every mode) in every stored order; unconstrained symbolic multiplicands, "
+           "so fibres whose products are individually non-zero but cancel exactly, zero multiplicand entries and sparse / dense hand-back are all reached by forks")
+def reductions_cancel(E, shape, order, op, big):
+    """ttv / ttm / collapse / scale: no explicit zero, no duplicate, right nnz when the contributions to a result position cancel exactly; same result for every stored order"""
+    N = len(shape)
+    mb = [m for m in range(N) if shape[m] == 4][0]
+    ms = [m for m in range(N) if shape[m] == 2][0]
+
+    def at(b, s_):
+        p = [0] * N
+        p[mb], p[ms] = b, s_
+        return tuple(p)
+    pos = (at(2, 0), at(0, 1), at(2, 1))
+    S, pv = O.sparse_direct(E, "x", shape, pos, order)
+    ref = O.sparse_ref(shape, pv)
+    m = mb if big else ms
+    if op == "ttv":
+        v = E.reals("v", (shape[m],))
+        _sparse_or_dense(E, S.ttv(v, m), O.ref_ttv(ref, {m: v}), f"ttv mode {m}")
+    elif op == "ttm":
+        M = E.reals("M", (1, shape[m]))
+        _sparse_or_dense(E, S.ttm(M, m), O.ref_ttm(ref, {m: M}), f"ttm mode {m}")
+    elif op == "collapse":
+        _sparse_or_dense(E, S.collapse(np.array([m])), O.ref_collapse(ref, [m]), f"collapse mode {m}")
+    else:
+        f = E.reals("f", (shape[m],))
+        _sparse_or_dense(E, S.scale(f, m), O.ref_scale(ref, f, [m]), f"scale mode {m}")
+        F = ttb.tensor(f, copy=False) if not E.sym else ttb.tensor(f)
+        _sparse_or_dense(E, S.scale(F, m), O.ref_scale(ref, f, [m]), f"scale by a dense tensor, mode {m}")
+
+
 @ob("C06", params=[dict(order=o, key=k) for o in itertools.permutations(range(3)) for k in range(4)],
     bounds="2x4 sptenmat (copy=False) with 3 stored symbolic values in every stored order; one assignment M[i, j] = v that overwrites, appends at the end, or inserts in front of two stored entries")
 def sptenmat_setitem(E, order, key):
